@@ -770,7 +770,8 @@ LockReleased ==         \* outside a session a thread neither holds the lock nor
     \A a \in Live : Resting(a) =>
         /\ lock[th[a].pid] # a /\ pre[th[a].pid] # a
         /\ ~th[a].inTx
-        /\ th[a].pool # 0 /\ conns[th[a].pool].creator = th[a].pid => ~conns[th[a].pool].inDbTx
+        /\ th[a].pool # 0 /\ conns[th[a].pool].creator = th[a].pid /\ (Sqlite \/ Lbl(th[a]) # "SUSP")
+              => ~conns[th[a].pool].inDbTx      \* (D10: a suspended generator keeps the implicit transaction of its reads)
 
 LockConsistent ==       \* the lock is held exactly by a thread that is inside a write transaction (or acquiring it)
     /\ ~flags.badRelease
